@@ -181,6 +181,13 @@ def check_phase(res, spec, obs, ph, ta=25.0, want=("C01", "C02", "C04"), d=None,
                     res.v(("C02.tpeak", k, "dead" if vin == 0 else ("inactive" if not act else "live")), "%s peak %r but ta+rise %r" % (name, tp, ta + tr))
                 if rt * L > 0:
                     res.stats["temp_rows"] += 1
+    if "TP" in want and "C02" not in want:  # peak temperature = ambient + rise, on its own (for checks that must not report the recorded rise finding)
+        for name, rec in d.items():
+            r = rows[name]
+            if rec["k"] != "Source" and has(r, "Temp. rise (°C)") and has(r, "Peak temp. (°C)"):
+                tr, tp = g(r, "Temp. rise (°C)"), g(r, "Peak temp. (°C)")
+                if not close(tp, ta + tr, 1e-12, 1e-12):
+                    res.v(("C02.tpeak", rec["k"], "inactive" if not active(rec, ph) else ("dead" if g(r, "Vin (V)") == 0 else "live")), "%s peak %r but ta+rise %r" % (name, tp, ta + tr))
     if "C02" in want and not close(psrc, pload + ploss, 1e-4, 5e-8 * vmax * len(d)):
         res.v(("C02.system", "neg-source-rs" if any_neg_rs_source else "plain"), "sources %r loads+losses %r" % (psrc, pload + ploss))
     return rows
